@@ -221,10 +221,33 @@ fn run_case(ctx: &mut Ctx, scn: &Scn, sched_name: &str, tag: &str) -> Option<u64
     Some(gas_used)
 }
 
+/// corpus: every opcode of the instruction table executed once (script context, operands = zeroed registers /
+/// zero immediates, then `ret`) under a schedule whose entries are pairwise distinct, so that an opcode charging
+/// another opcode's entry is visible to the oracle and to the model
+fn opcode_sweep(ctx: &mut Ctx) {
+    let f: Vec<u64> = (0..gas_gen::FIXED.len() as u64).map(|i| 1000 + 7 * i).collect();
+    let d: Vec<DependentCost> = (0..gas_gen::DEP.len() as u64).map(|i| DependentCost::LightOperation { base: 5000 + 11 * i, units_per_gas: 3 + i }).collect();
+    let costs = gas_gen::make(&f, &d);
+    for row in g::TABLE {
+        let mut r = ctx.rng.clone();
+        let mut scn = gen_scenario(&mut r, Focus::Gas, costs.clone());
+        let base = *scn.params.base_asset_id();
+        let args: Vec<u32> = row.2.iter().map(|k| if *k == 0 { 0x10 } else { 0 }).collect();
+        let Some(ins) = g::construct(row.0, &args) else { continue };
+        let code = vec![ins, fuel_asm::op::ret(RegId::ONE)];
+        let mut bytes: Vec<u8> = code.iter().flat_map(|i| i.to_bytes()).collect();
+        bytes.extend_from_slice(&pool(&base));
+        scn.script = bytes; scn.gas_limit = 1_000_000; scn.gas_price = 0; scn.coin_outs.clear();
+        run_case(ctx, &scn, "distinct", &format!("sweep {}", row.1));
+        ctx.count("sweep.opcode");
+    }
+}
+
 pub fn run(ctx: &mut Ctx) {
     // the default schedule as compiled into fuel-tx vs. the table the translator extracted
     ctx.emit("dflt", &dump(&GasCostsValues::default()));
     ctx.emit("unit", &dump(&GasCostsValues::unit()));
+    opcode_sweep(ctx);
     let n = ctx.n(120, 1500);
     for case in 0..n {
         let (costs, name) = schedule(&mut ctx.rng, gas_gen::FIXED.len(), gas_gen::DEP.len(), &gas_gen::make);
